@@ -96,7 +96,28 @@ def late_script(rng, name, storage, R, n_epochs):
 
 def sender_script(rng, name, variant):
     """B sends in epoch 1; then B is removed (variant 'vacated'), removed and its leaf reused by
-    D ('reused'), or nothing happens ('control'); C receives B's message late."""
+    D ('reused'), or nothing happens ('control'); C receives B's message late.
+    'blank_left*': five members, B (leaf 1) is removed first, so the epoch in which D (leaf 3)
+    sends has a blank leaf to the left of the sender; afterwards nothing happens to D
+    ('blank_left') or D is removed ('blank_left_vacated'); C receives D's message late."""
+    if variant.startswith("blank_left"):
+        members = [{"name": n, "retention": 5} for n in "ABCDE"]
+        ops = [{"op": "create", "who": "A"}] + [{"op": "kp", "who": n, "id": "k" + n} for n in "BCDE"]
+        ops += [{"op": "commit", "who": "A", "id": "c0", "add": ["kB", "kC", "kD", "kE"]}, {"op": "apply", "who": "A"}]
+        ops += [{"op": "join", "who": n, "welcome_any": "c0"} for n in "BCDE"]
+        ops += [{"op": "commit", "who": "A", "id": "cb", "remove_names": ["B"]}, {"op": "apply", "who": "A"}]
+        ops += [{"op": "deliver", "to": n, "msg": "cb"} for n in "CDE"]
+        snd = rng.choice(["D", "E"])
+        ops += [{"op": "app", "who": snd, "id": "late", "data": "aa"}, {"op": "observe", "who": "C", "observe": "C"}]
+        if variant == "blank_left_vacated":
+            ops += [{"op": "commit", "who": "A", "id": "c1", "remove_names": [snd]}, {"op": "apply", "who": "A"}, {"op": "deliver", "to": "C", "msg": "c1"}]
+        else:
+            ops += [{"op": "commit", "who": "A", "id": "c1"}, {"op": "apply", "who": "A"}, {"op": "deliver", "to": "C", "msg": "c1"}]
+        if rng.chance(1, 2):
+            ops.append({"op": "save", "who": "C"})
+        ops.append({"op": "observe", "who": "C", "observe": "C"})
+        ops.append({"op": "deliver", "to": "C", "msg": "late"})
+        return {"name": name, "suite": 1, "members": members, "ops": ops, "sender_leaf": 3 if snd == "D" else 4}
     members = [{"name": n, "retention": 5} for n in "ABCD"]
     ops = [{"op": "create", "who": "A"}, {"op": "kp", "who": "B", "id": "kB"}, {"op": "kp", "who": "C", "id": "kC"},
            {"op": "commit", "who": "A", "id": "c0", "add": ["kB", "kC"]}, {"op": "apply", "who": "A"},
@@ -113,7 +134,7 @@ def sender_script(rng, name, variant):
         ops.append({"op": "save", "who": "C"})
     ops.append({"op": "observe", "who": "C", "observe": "C"})
     ops.append({"op": "deliver", "to": "C", "msg": "late"})
-    return {"name": name, "suite": 1, "members": members, "ops": ops}
+    return {"name": name, "suite": 1, "members": members, "ops": ops, "sender_leaf": 1}
 
 
 def coq_eval(name, defs, expr):
@@ -180,7 +201,7 @@ def main(run, args):
         s, model, last = late_script(rng, f"c19-late-{i}", st, R, 3 + rng.below(6))
         scripts.append(s)
         models.append((st, R, model))
-    variants = ["vacated", "reused", "control"] * (2 if quick else 8)
+    variants = ["vacated", "reused", "control", "blank_left", "blank_left_vacated"] * (2 if quick else 8)
     sscripts = [sender_script(rng, f"c19-sender-{i}", v) for i, v in enumerate(variants)]
     recs_all = run_scripts(scripts + sscripts, timeout=1500)
     late_cases = 0
@@ -234,17 +255,20 @@ def main(run, args):
         accepted = last[0].get("ok") is True
         keys = lambda o: [(n["s"] if isinstance(n, dict) and "L" in n else None) for n in o["tree"][0::2]]
         old, cur = keys(obs[0]), keys(obs[-1])
-        want = old[1] is not None and len(cur) > 1 and cur[1] == old[1]
+        sl = sc.get("sender_leaf", 1)
+        want = len(old) > sl and old[sl] is not None and len(cur) > sl and cur[sl] == old[sl]
         if accepted and not want:
             failing.append({"what": "late message attributed to a member that is not its sender", "script": sc["name"], "variant": v, "old_keys": old, "cur_keys": cur})
         if last[0].get("err") == "PANIC":
             failing.append({"what": "panic on a late message", "script": sc["name"]})
         o2 = "[" + "; ".join("None" if k is None else f"Some {k}" for k in old) + "]"
         c2 = "[" + "; ".join("None" if k is None else f"Some {k}" for k in cur) + "]"
-        cases.append((f"[if late_sender_ok {o2} {c2} 1 then 1 else 0]", [1 if accepted else 0], {"script": sc["name"], "variant": v}))
+        if want and not accepted:
+            failing.append({"what": "late message of a member whose leaf is unchanged, from a retained epoch, is refused", "script": sc["name"], "variant": v, "error": last[0].get("err"), "sender_leaf": sl, "old_keys": old, "cur_keys": cur})
+        cases.append((f"[if late_sender_ok {o2} {c2} {sl} then 1 else 0]", [1 if accepted else 0], {"script": sc["name"], "variant": v}))
     # ---------------- model evaluation
     coq_cases = 0
-    if proofs_ok:
+    if model_ready(proofs_ok):
         def build(c):
             if c[0] == "REPO":
                 be, ops_txt = c[1]
@@ -296,7 +320,7 @@ def main(run, args):
     run.cov.update({
         "evaluations": len(cases),
         "distinct_nontrivial": len({json.dumps(c[-1], default=str) for c in cases}),
-        "rule": "provider level: write sequences (two thirds contiguous as the repository issues them, one third with gaps, duplicate ids, updates of absent ids and ids at the i64 boundary) on both providers with R in {1,2,3,5}, every stored id probed after every write; group level: 3-8 epochs, one message per epoch, saves at random epochs, optional reload, all old messages delivered at the end (and a few in between); late-sender scenarios (vacated / reused / control).",
+        "rule": "provider level: write sequences (two thirds contiguous as the repository issues them, one third with gaps, duplicate ids, updates of absent ids and ids at the i64 boundary) on both providers with R in {1,2,3,5}, every stored id probed after every write; group level: 3-8 epochs, one message per epoch, saves at random epochs, optional reload, all old messages delivered at the end (and a few in between); late-sender scenarios (vacated / reused / control; the same with a blank leaf to the left of the sender in the sending epoch).",
         "samples": [cases[0][-1], cases[-1][-1]],
         "provider_sequences": len(seqs),
         "late_message_deliveries": late_cases,
